@@ -59,7 +59,7 @@ class WriterRecord:
         self.where = repo.where(ci.module, fn)
         self.qual = f'{cls}.write'
         params = {a.arg: parse_annotation(a.annotation) for a in fn.args.args[1:]}
-        self.ti = TypeInfer(repo, ci.module, params)
+        self.ti = TypeInfer(repo, ci.module, params, owner=repo.cls(cls, rule))
         self.typer = JsonTyper(self.ti)
         S = Summarizer(repo, rule)
         self.guard_ok = True
